@@ -56,6 +56,8 @@ class SiteSpecHooks:
             eng.oblige(s2, 'site/%s@L%d' % (site['name'], node.lineno), t, kind='store-site')
             key = 'n_site_' + site['name']
             st.ghost[key] = st.ghost.get(key, z3.IntVal(0)) + 1
+        if self.inner is not None and hasattr(self.inner, 'setitem'):
+            return self.inner.setitem(eng, st, tgt, o, k, val, node)
         return NotImplemented
 
     def getitem(self, eng, st, o, k, node):
